@@ -201,6 +201,52 @@ def body_peakdt(env):
                        dt[ri, j], seq[j + 1] - seq[j])
 
 
+def body_analyze(env):
+    """hotspot.analyze on a reactor with interleaved assembly types that request the same location: with all subfactors
+    equal to one every returned row is the nominal cumulative peak profile of the assembly whose id is listed at that
+    row (the bookkeeping of ids, rows and types), for every requested location."""
+    with env.patch(MODS):
+        T_in = env.real('T_in', lo=200, hi=2000)
+        names = ['inner', 'outer', 'inner', 'blanket', 'outer']
+        asms = []
+        for a, nm in enumerate(names):
+            o = _Asm()
+            o.name = nm
+            o.id = a
+            prof = [float(a), 0.0, 0.0] + [env.real('prof%d_%d' % (a, i), lo=200, hi=5000) for i in range(6)]
+            peakc = env.real('peakcool%d' % a, lo=200, hi=5000)
+            o._peak = {'cool': [peakc, 0.1], 'pin': {k: [0.0, 0.0, prof] for k in ('clad_od', 'clad_mw', 'clad_id', 'fuel_od', 'fuel_cl')}}
+            asms.append(o)
+        req = {'inner': ['coolant', 'clad_mw', 'fuel_cl'], 'outer': ['fuel_cl', 'clad_mw'], 'blanket': ['coolant']}
+        opts = {nm: {k: {'subfactors': 'unity', 'input_sigma': 3, 'output_sigma': 2} for k in ks} for nm, ks in req.items()}
+        r = StubSelf(assemblies=asms, inlet_temp=T_in, _options={'hotspot': opts})
+
+        def unity_table(path, cols_needed=None):
+            n = int(cols_needed) if cols_needed is not None else 5
+            return {'direct': np.ones((2, n)), 'statistical': np.ones((2, n))}, {}
+        env.stub('_read_hcf_table returns an all-ones table (file reading is outside the claim)')
+        with env.patch([], extra={(hs, '_read_hcf_table'): unity_table}):
+            out = hs.analyze(r)
+        env.holds('analyze returns results', out is not None)
+        peak_temps, asm_ids = out
+        idx = {'clad_od': 5, 'clad_mw': 6, 'clad_id': 7, 'fuel_od': 8, 'fuel_cl': 9}
+        for loc in ('coolant', 'clad_mw', 'fuel_cl'):
+            want = sorted(a for a, nm in enumerate(names) if loc in req[nm])
+            got = [int(x) for x in asm_ids.get(loc, [])]
+            env.holds('%s: every assembly of every type that requested it is listed once, in id order' % loc, got == want,
+                      key='hotspot_rows_do_not_match_assemblies')
+            if got != want:
+                continue
+            rows = peak_temps[loc]
+            env.holds('%s: one row per listed assembly' % loc, rows.shape[0] == len(want), key='hotspot_rows_do_not_match_assemblies')
+            for i, a in enumerate(want):
+                o = asms[a]
+                seq = [o._peak['cool'][0]] if loc == 'coolant' else o._peak['pin'][loc][2][3:idx[loc]]
+                for j in range(len(seq)):
+                    env.eq('%s: row %d is assembly %d: with unit subfactors column %d is its own stored peak temperature' % (loc, i, a, j),
+                           rows[i, j], seq[j], tol=1e-9, key='hotspot_rows_do_not_match_assemblies')
+
+
 def instances(tier):
     inst = []
     if tier == 'probe':
@@ -220,6 +266,7 @@ def instances(tier):
                          params={'n_asm': na, 'n_sf': nsf, 'n_terms': nt}))
     for v in ('coolant', 'clad_od', 'clad_mw', 'clad_id', 'fuel_od', 'fuel_cl'):
         inst.append(dict(label='peak-dt[%s]' % v, body=body_peakdt, params={'value': v}))
+    inst.append(dict(label='analyze[three interleaved types, shared locations]', body=body_analyze, params={}, timeout_ms=120000))
     return inst
 
 
